@@ -98,6 +98,7 @@ def main(argv):
             violations.append({'unit': u, 'input': cin, 'real': r['real'], 'exp': r['exp'], 'via': 'E2 witness'})
     pre.pop('replay', None)
 
+    stop_early = os.environ.get('VERIF_STOP_ON_VIOLATION') == '1'
     ctx = mp.get_context('spawn')
     with cf.ProcessPoolExecutor(max_workers=NPROC, mp_context=ctx, initializer=_pool_init,
                                 initargs=(True,)) as ex:
@@ -143,6 +144,14 @@ def main(argv):
                             open_units[i] += 1
                 if open_units[i] == 0:
                     units_done += 1
+            if stop_early and violations:
+                # seeded-change / mutant runs only need to know THAT the check raises the alarm
+                for f in list(futs):
+                    f.cancel()
+                unfinished.append({'note': 'stopped at the first confirmed violation (VERIF_STOP_ON_VIOLATION)'})
+                futs = {}
+                ex.shutdown(wait=True, cancel_futures=True)
+                break
 
     wall = time.time() - t0
     exhaustive = (not unfinished and not degraded and not inconclusive and not crashes and not mismatches)
